@@ -304,6 +304,7 @@ func (m *monitor) EnableKubeEventCb() {
 	// and gets enabled by the loop (enabling twice is harmless). Setting the flag
 	// after the loops leaves informers created in between locked for ever.
 	m.eventsEnabled.Store(true)
+	verifhook.Point("mon.enable.afterFlag", m.Config.Metadata.MonitorId)
 	for _, informer := range m.ResourceInformers {
 		informer.enableKubeEventCb()
 	}
